@@ -34,6 +34,13 @@ from .. import ini as inimod
 VALID, INVALID, UNSPEC = "valid", "invalid", "unspec"
 
 
+def dec(v):
+    """ops are JSON; {"__bytes__": "text"} stands for a bytes value (a py2-minded caller handing bytes to a text field)"""
+    if isinstance(v, dict) and list(v.keys()) == ["__bytes__"]:
+        return v["__bytes__"].encode("utf-8")
+    return v
+
+
 class Slot(object):
     def __init__(self):
         self.obj = None
